@@ -92,7 +92,7 @@ static jv *run(jv *s)
   const char *op = j_str(s, "op", "");
   mock_ret = static_cast<int>(j_int(s, "ret", 1)); mock_calls = 0;
   jv *out = j_mkobj();
-  if (!strcmp(op, "start") || !strcmp(op, "fork") || !strcmp(op, "clone_start")) {
+  if (!strcmp(op, "start") || !strcmp(op, "fork") || !strcmp(op, "clone_start") || !strcmp(op, "restart")) {
     jv *o = j_get(s, "o");
     reproc::options opt;
     opt.env.behavior = static_cast<reproc::env::type>(j_int(o, "envb", 0));
@@ -118,6 +118,7 @@ static jv *run(jv *s)
     opt.redirect.path = j_get(o, "path") && j_get(o, "path")->s[0] ? cstr(j_get(o, "path")) : nullptr;
     opt.stop = mk_stop(j_get(o, "stop"));
     opt.deadline = reproc::milliseconds(static_cast<int>(j_int(o, "dl", 0)));
+    opt.timeout = reproc::milliseconds(static_cast<int>(j_int(o, "tmo", 0)));
     jv *in = j_get(o, "input");
     if (in && in->a[0]->i >= 0) opt.input = reproc::input(DATA + in->a[0]->i, static_cast<size_t>(in->a[1]->i));
     opt.nonblocking = j_int(o, "nb", 0) != 0;
@@ -134,7 +135,15 @@ static jv *run(jv *s)
     reproc::arguments nullargs(static_cast<const char *const *>(nullptr));   /* "null": no argument vector at all */
     std::vector<std::string> av2 = av;
     if (!strcmp(am, "held")) { for (auto &x : av) for (auto &ch : x) ch = '#'; av.clear(); }
-    if (!strcmp(op, "fork")) { auto r = p.fork(opt); ec = r.second; val = r.first ? 1 : 0; }
+    if (!strcmp(op, "restart")) {
+      mock_ret = static_cast<int>(j_int(s, "ret1", -22));
+      std::error_code ec1 = p.start(av, opt);
+      j_put(out, "first", ec_obs(0, ec1, mock_ret));
+      mock_ret = static_cast<int>(j_int(s, "ret", 1));
+      ec = p.start(av, opt);
+      j_put(out, "ncalls", j_mkint(mock_calls));
+    }
+    else if (!strcmp(op, "fork")) { auto r = p.fork(opt); ec = r.second; val = r.first ? 1 : 0; }
     else if (!strcmp(op, "clone_start")) {
       reproc::options c = reproc::options::clone(opt);
       ec = !strcmp(am, "null") ? p.start(nullargs, c) : !strcmp(am, "raw") ? p.start(rawargs.data(), c) : !strcmp(am, "held") ? p.start(held, c) : p.start(av, c);
